@@ -46,18 +46,35 @@ def findings():
     return fs
 
 
+FALLBACK_FNS = ["set_value", "set_string", "set_string_ex", "set_string_nx", "set_string_nx_ex", "get", "delete", "expire", "pexpire",
+                "persist", "incr", "incr_by", "append", "setrange", "lpush", "rpush", "lpop", "rpop", "lset", "ltrim", "lrem", "sadd",
+                "srem", "spop", "hset", "hdel", "hincrby", "zadd", "zrem", "zincrby", "xadd", "xadd_with_id", "xdel", "xtrim",
+                "expiration_cleanup_loop"]
+
+
 def table_rows():
-    """The translator's rows (the same that become Gen.storageFns), or a string saying what failed."""
+    """-> (rows, note).  The translator's rows (the same that become Gen.storageFns).  When the translator no longer
+    recognises the source the table theorems cannot check; the dynamic search still needs a table to drive the
+    model, so the prescribed one is used (every write marks): the Spec judges, and a disagreement of that model with
+    the server is then only reported if no failing input is found."""
     import extract
     import watch_facts
-    return watch_facts.rows(extract.src, extract.strip_comments)
+    rows = watch_facts.rows(extract.src, extract.strip_comments)
+    if isinstance(rows, str):
+        fb = [{"name": n, "keyParams": ["key"], "mutates": True, "marked": ["key"], "marksAll": False} for n in FALLBACK_FNS]
+        fb.append({"name": "rename", "keyParams": ["old_key", "new_key"], "mutates": True, "marked": ["old_key", "new_key"], "marksAll": False})
+        fb.append({"name": "flush_db", "keyParams": [], "mutates": True, "marked": [], "marksAll": True})
+        return fb, rows
+    return rows, None
 
 
 def table_quirks():
-    """(perDb, rewatchKeeps, watchPurges) as the translator reads them from the source (= Gen.watchQ), or a string"""
+    """-> ((perDb, rewatchKeeps, watchPurges), notes): as the translator reads them from the source (= Gen.watchQ); a shape
+    it does not recognise gives the pessimistic value of that switch and a note (Gen.watchQRecognised = false)"""
     import extract
     import watch_facts
-    return watch_facts.quirks(extract.src, extract.strip_comments, extract.fn_body)
+    q = watch_facts.quirks(extract.src, extract.strip_comments, extract.fn_body)
+    return tuple(int(x) for x in q["q"]), q["notes"]
 
 
 def b(x):
@@ -185,6 +202,13 @@ class Sess:
         if r != ("s", b"OK"):
             raise InternalError("server was not built with feature verif: %r" % (r,))
 
+    def conn(self, c):
+        """connection `c` (3, 4, ... are opened on demand: additional watchers)"""
+        if c not in self.cl:
+            self.cl[c] = self.srv.client()
+            self.db[c], self.intx[c], self.watching[c], self.queue[c] = 0, False, False, []
+        return self.cl[c]
+
     def close(self):
         for c in list(self.cl.values()) + [self.ctl]:
             c.close()
@@ -303,7 +327,7 @@ class Sess:
         """send one client command, mirror it to the model; returns the step record"""
         args = [b(x) for x in args]
         name = up(args[0])
-        cli = self.cl[c]
+        cli = self.conn(c)
         self.evals += 1
         if name in TXCTL and not (self.intx[c] and name == "SELECT"):
             return self.do_ctl(c, name, args)
@@ -491,20 +515,23 @@ class Sess:
         self.ask("cmd %d %d k:rpush:key:%s:1:0:p7" % (pusher, now, hx(key)))
         self.ask("cmd %d %d k:lpop:key:%s:1:1:d" % (popper, now, hx(key)))
 
-    def wait_sweep(self, db, key):
-        """let the sweeper run until it has removed the (expired) key, pause it again, tell the model"""
-        self.steps.append({"kind": "wait-sweep", "db": db, "key": hx(key)})
-        if self.ctl_db != db:
-            self.ctl.cmd("SELECT", str(db))
-            self.ctl_db = db
+    def sweeper_alone(self, keys):
+        """The sweeper, and nothing else, reaps the given (db, key) pairs, whose deadlines have all passed: no command
+        touches them (every single-key command would reap an expired key lazily, WITH the mark).  The sweeper is
+        resumed until `VERIF SWEEPER PASSES` has advanced twice — at least one full pass began after the deadlines —
+        and paused again; then the model is told of the deletions."""
+        self.steps.append({"kind": "sweeper-run", "keys": [[d, hx(k)] for d, k in keys]})
+        p0 = self.ctl.cmd("VERIF", "SWEEPER", "PASSES")[1]
         self.ctl.cmd("VERIF", "SWEEPER", "RESUME")
-        t_end = time.monotonic() + 6
-        while time.monotonic() < t_end and self.ctl.cmd("TYPE", key) != ("s", b"none"):
-            time.sleep(0.01)
+        t_end = time.monotonic() + 10
+        while time.monotonic() < t_end and self.ctl.cmd("VERIF", "SWEEPER", "PASSES")[1] < p0 + 2:
+            time.sleep(0.02)
+        done = self.ctl.cmd("VERIF", "SWEEPER", "PASSES")[1] >= p0 + 2
         self.ctl.cmd("VERIF", "SWEEPER", "PAUSE")
-        if self.ctl.cmd("TYPE", key) != ("s", b"none"):
-            raise InternalError("sweeper did not remove the expired key within 6 s")
-        self.ask("sweep %d %d %s" % (db, self.now(), hx(key)))
+        if not done:
+            raise InternalError("the sweeper did not complete two passes within 10 s")
+        for d, k in keys:
+            self.ask("sweep %d %d %s" % (d, self.now(), hx(k)))
 
     # ---- cells
     def begin(self, cell):
@@ -585,6 +612,9 @@ COMMANDS = [
     ("KEYS", ["KEYS", "*"], None, None),
 ]
 PATHS = ["other", "same", "exec", "eval"]
+# the watcher SELECTs another database between WATCH and EXEC: the change is made in the WATCH-time database (must abort)
+# / only the key of the same name in the EXEC-time database is changed (must not abort)
+SELECT_PATHS = ["select-then-change-in-watch-db", "select-then-change-in-exec-db-only"]
 # the state in which a command really does its work (for the OTHER-key side)
 HOME = {"L": "list", "S": "set", "H": "hash", "Z": "zset", "X": "stream"}
 
@@ -651,13 +681,53 @@ def finish_tx(s, tag):
 def matrix_cell(s, label, args, ostate, state, path, wk, ok, watched=None):
     """set `wk` up in `state`, WATCH `watched` (default wk), run the command through `path`, EXEC"""
     s.begin({"kind": "matrix", "cmd": label, "state": state, "path": path, "key": hx(wk)})
+    d1 = (s.base_db + 7) % 16
     for st in STATES[state]:
         s.do(B, subst(st, wk, ok))
+    if path == "select-then-change-in-exec-db-only":
+        s.do(B, ["SELECT", str(d1)])                # the same key name, same state, in the other database
+        for st in STATES[state]:
+            s.do(B, subst(st, wk, ok))
     if ostate == "present":
         s.do(B, ["SET", ok, "other"])
     s.do(A, ["WATCH", watched or wk])
-    run_path(s, path, subst(args, wk, ok))
+    if path in SELECT_PATHS:
+        s.do(A, ["SELECT", str(d1)])
+        s.do(B, subst(args, wk, ok))                # in the WATCH-time database / in d1
+    else:
+        run_path(s, path, subst(args, wk, ok))
     return finish_tx(s, "t")
+
+
+def expiry_all_types(s, wk, mode, rep):
+    """Expiry by deadline for a watched key of every type, one watcher connection per key, nobody touching the keys
+    after their deadline: `lazy` = the sweeper stays paused (EXEC's own look at the key finds it expired);
+    `sweeper-alone` = the sweeper reaps them before EXEC.  Every EXEC must return nil."""
+    types = ["string", "list", "set", "hash", "zset", "stream"]
+    for ttl in (400, 1200, 4000):
+        s.begin({"kind": "scenario", "name": "expiry-%s-all-types" % mode, "key": hx(wk)})
+        keys = []
+        for i, t in enumerate(types):
+            k = wk + b":" + t.encode()
+            keys.append(k)
+            for st in STATES[t]:
+                s.do(B, subst(st, k, b"-"))
+            s.do(B, ["PEXPIRE", k, str(ttl)])
+            s.do(3 + i, ["SELECT", str(s.base_db)]) if s.conn(3 + i) and s.db[3 + i] != s.base_db else None
+            s.do(3 + i, ["WATCH", k])
+        if all(s.live_now(B, k) for k in keys):
+            break                                   # every WATCH was answered before its key's deadline
+    else:
+        raise InternalError("machine too slow for the expiry scenarios: a 4 s deadline passed before WATCH was answered")
+    s.sleep(ttl + 150)
+    if mode == "sweeper-alone":
+        s.sweeper_alone([(s.base_db, k) for k in keys])
+    for i, t in enumerate(types):
+        s.do(3 + i, ["MULTI"])
+        s.do(3 + i, ["SET", PROBE + b":%d" % i, mode])
+        st = s.do(3 + i, ["EXEC"])
+        rep.count("scenario.expiry-%s.%s.%s" % (mode, t, st["impl"].split()[0]))
+        rep.nontrivial(("expiry", mode, t, st["impl"].split()[0], st["model"]))
 
 
 def scenarios(s, wk, same_k, diff_k, rep):
@@ -781,11 +851,9 @@ def scenarios(s, wk, same_k, diff_k, rep):
     s.sleep(120)
     s.do(A, ["WATCH", wk])
     finish_tx(s, "f")
-    # sweeper running: the deletion marks the key
-    ttl = watch_before_deadline("expiry-sweeper")
-    s.sleep(ttl + 50)
-    s.wait_sweep(s.db[A], wk)
-    finish_tx(s, "s")
+    # every key type: lazy (sweeper paused) and by the sweeper alone
+    expiry_all_types(s, wk, "lazy", rep)
+    expiry_all_types(s, wk, "sweeper-alone", rep)
 
 
 def select_scenarios(rows, quirks, wk, same_k, rep, r):
@@ -915,7 +983,9 @@ def run_steps(s, steps):
         elif k == "blocked-pop-served":
             s.blocked_pop_served(st["popper"], st["pusher"], unhx(st["key"]), unhx(st["elem"]))
         elif k == "wait-sweep":
-            s.wait_sweep(st["db"], unhx(st["key"]))
+            s.sweeper_alone([(st["db"], unhx(st["key"]))])
+        elif k == "sweeper-run":
+            s.sweeper_alone([(d, unhx(kk)) for d, kk in st["keys"]])
 
 
 def reproduce_alone(rows, quirks, o, steps):
